@@ -85,6 +85,9 @@ pub fn new_world(cluster: &str) -> Box<dyn World> {
 }
 
 /// A run: trace + current world. Generators drive it.
+/// ledgers of one long sleep (about seventy days; the contracts extend their entries to sixty)
+pub const LONG_SLEEP: u32 = 1_200_000;
+
 pub struct Run {
     pub tr: Trace,
     pub world: Option<Box<dyn World>>,
@@ -92,12 +95,13 @@ pub struct Run {
     /// automatic ledger ticks between generated operations (None when replaying: ticks are then explicit lines)
     pub ticker: Option<Rng>,
     tick_left: u32,
+    sleeps_left: u32,
     tick_world: bool,
     probe_world: bool,
 }
 impl Run {
     pub fn new() -> Self {
-        Run { tr: Trace::new(), world: None, ops: 0, ticker: None, tick_left: 0, tick_world: false, probe_world: false }
+        Run { tr: Trace::new(), world: None, ops: 0, ticker: None, tick_left: 0, sleeps_left: 0, tick_world: false, probe_world: false }
     }
     pub fn scenario(&mut self, cluster: &str, name: &str) {
         self.tr.lines.push(format!("scenario {cluster} {name}"));
@@ -107,6 +111,7 @@ impl Run {
         // all ticks of one scenario together stay well below the shortest lifetime of a persistent or instance
         // entry in the test host (4096 ledgers), and far above that of a temporary entry (16)
         self.tick_left = 3000;
+        self.sleeps_left = 2;
         self.probe_world = matches!(cluster, "gw" | "op" | "tk" | "ex" | "its");
     }
     /// now and then: call (without authorisation) whatever the contract exports beyond what the model knows
@@ -135,15 +140,23 @@ impl Run {
         }
         let n = match self.ticker.as_mut() {
             Some(r) => {
-                if r.below(6) != 0 {
+                let k = r.below(90);
+                if k == 1 && self.sleeps_left > 0 {
+                    // a long sleep: more than the sixty days to which the contracts extend the lifetime of their entries
+                    self.sleeps_left -= 1;
+                    LONG_SLEEP
+                } else if k % 6 != 0 {
                     return;
+                } else {
+                    [1u32, 15, 16, 17, 40, 150, 600][r.below(7) as usize]
                 }
-                [1u32, 15, 16, 17, 40, 150, 600][r.below(7) as usize]
             }
             None => return,
         };
-        let n = n.min(self.tick_left);
-        self.tick_left -= n;
+        let n = if n == LONG_SLEEP { n } else { n.min(self.tick_left) };
+        if n != LONG_SLEEP {
+            self.tick_left -= n;
+        }
         let line = format!("tick {n}");
         let toks: Vec<&str> = line.split(' ').collect();
         let (obs, _) = self.world.as_mut().expect("no scenario").exec(&toks);
